@@ -82,21 +82,81 @@ var _ = time.Second
 func lemmaModWrap(a, n int) {
 }
 
-// mergeValue -- ASSUMED contract (flag `trusted`): the observation is added to the total exactly
-// once; pending and the flags are untouched. An attempt to verify it (with the structural
-// invariant levelOK for every level, existing and separate bucket objects bucketOK, `abstractrem`
-// and lemmaModWrap) discharged 57 of 64 obligations, among them every bucket-index and division
-// obligation; the remaining 7 all need the nested invariant "for every level k and bucket i,
-// bucketOK" at the bucket that was picked, which the engine does not instantiate (and creating a
-// bucket goes through the `provider` function value, for which no contract can be written).
+// mvIndex: the bucket index (0 = oldest retained bucket, numBuckets-1 = newest) of time t in level l,
+// as mergeValue computes it: the number of whole bucket widths between t and the level's end,
+// counted back from the newest bucket. (time.Time.Sub is a trusted `function` contract.)
+//
+//@ pure
+func mvIndex(ts *timeSeries, l *tsLevel, t time.Time) int {
+	return (ts.numBuckets - 1) - int(l.end.Sub(t)/l.size)
+}
+
+//@ pure
+func mvInRange(ts *timeSeries, l *tsLevel, t time.Time) bool {
+	return 0 <= mvIndex(ts, l, t) && mvIndex(ts, l, t) < ts.numBuckets
+}
+
+// mergeValue -- CHECKED partial contract (bucket selection) plus an ASSUMED summary for callers.
+//
+// Checked (the body of mergeValue is executed symbolically; unit of C61), per level of the range
+// loop (step clauses: they hold at the end of every iteration, for the level of that iteration):
+//   - index is exactly mvIndex(ts, level, t) = (numBuckets-1) - int(level.end.Sub(t)/level.size);
+//   - if 0 <= index < numBuckets, Observable.Add is called exactly once in the iteration (ghost
+//     counter adds), and every Add call of the loop has the observation as argument and the bucket
+//     level.buckets[(level.oldest+index)%numBuckets] as receiver (call-site assertions, for both
+//     implementations of Observable the call is dispatched to);
+//   - otherwise (index out of range) the level is untouched: no Add call, no provider call, every
+//     bucket slot keeps its value;
+//   - in every case at most one provider call, only for the selected slot and only if it is nil; no
+//     slot other than a nil selected slot changes.
+// The loop is reached exactly once on every path (ghost counter ranged). Every Add call of the function,
+// the final ts.total.Add included, has the observation as its argument.
+//
+// Also checked: the fields ts.total, ts.pending and ts.dirty are not written (post.3).
+//
+// ASSUMED, not checked (`partial post:post.2, post.4, post.5`, `partial nopanic`): the three value
+// postconditions the callers (mergePendingUpdates) use - the observation is added to the total
+// exactly once in the monoid model, the values of pending and of the observation are untouched -
+// and panic freedom. The value summary needs "every bucket is a model observable different from
+// total, pending and the observation" for all levels x buckets (nested quantifier over the heap, and
+// buckets created by the provider function value, for which no contract can be written); panic
+// freedom needs the structural invariant levelOK of every level (size != 0, len(buckets) ==
+// numBuckets) and a non-nil provider result. The provider callback is assumed not to write the
+// state under contract (`trustcall`).
+// Frame not checked (noframe).
 //
 //@ func (*timeSeries).mergeValue(ts, observation, t)
 //@   requires coreInv(ts) && isSum(observation) && observation.(*sumObs) != ts.total.(*sumObs)
+//@   ghost adds += 1 at call Add
+//@   ghost ranged += 1 at loop 1
+//@   loop 1 invariant ts == old(ts)
+//@   loop 1 invariant len(ts.levels) == old(len(ts.levels))
+//@   loop 1 invariant ts.numBuckets == old(ts.numBuckets)
+//@   loop 1 invariant observation == old(observation)
+//@   loop 1 invariant -1 <= rangeindex && rangeindex <= len(ts.levels)
+//@   loop 1 invariant t == old(t)
+//@   loop 1 invariant ts.total == old(ts.total) && ts.pending == old(ts.pending) && ts.dirty == old(ts.dirty)
+//@   loop 1 step index == mvIndex(ts, level, t)
+//@   loop 1 step mvInRange(ts, level, t) ==> ghost(adds) == atiter(ghost(adds)) + 1
+//@   loop 1 step !mvInRange(ts, level, t) ==> ghost(adds) == atiter(ghost(adds))
+//@   loop 1 step 0 <= rangeindex && rangeindex < len(ts.levels) && level == ts.levels[rangeindex]
+//@   ghost provs += 1 at call provider
+//@   loop 1 step !mvInRange(ts, level, t) ==> ghost(provs) == atiter(ghost(provs))
+//@   loop 1 step ghost(provs) == atiter(ghost(provs)) || ghost(provs) == atiter(ghost(provs)) + 1
+//@   loop 1 step len(level.buckets) == atiter(len(level.buckets))
+//@   loop 1 step forall i int :: 0 <= i && i < len(level.buckets) && !(mvInRange(ts, level, t) && i == (level.oldest+index)%ts.numBuckets && atiter(level.buckets[i]) == nil) ==> level.buckets[i] == atiter(level.buckets[i])
+//@   assert at call provider: 0 <= index && index < ts.numBuckets && level.buckets[(level.oldest+index)%ts.numBuckets] == nil
+//@   assert at call Add: $other == observation
+//@   assert at call (*sumObs).Add: $s != ts.total.(*sumObs) ==> 0 <= index && index < ts.numBuckets && $s == level.buckets[(level.oldest+index)%ts.numBuckets].(*sumObs)
+//@   assert at call (*Float).Add: 0 <= index && index < ts.numBuckets && $f == level.buckets[(level.oldest+index)%ts.numBuckets].(*Float)
+//@   ensures ghost(ranged) == 1
 //@   ensures val(ts.total) == old(val(ts.total)) + old(val(observation))
 //@   ensures ts.total == old(ts.total) && ts.pending == old(ts.pending) && ts.dirty == old(ts.dirty)
 //@   ensures observation.(*sumObs) != ts.pending.(*sumObs) ==> val(ts.pending) == old(val(ts.pending))
 //@   ensures val(observation) == old(val(observation))
-//@   trusted
+//@   trustcall provider
+//@   partial nopanic, post:post.2, post:post.4, post:post.5
+//@   noframe
 //@   modifies sumObs.v
 //@   allocates
 
